@@ -132,6 +132,7 @@ func init() {
 
 		var wg sync.WaitGroup
 		var mu sync.Mutex
+		var handedOver [][]byte
 		for wi := range a.Writers {
 			wg.Add(1)
 			go func(wi int) {
@@ -145,7 +146,38 @@ func init() {
 						p = c01Payload(wi, seq, n-10) // n bytes in total: 10 byte header + payload
 						seq++
 					}
+					// io.Writer contract: Write must not retain p, nor touch its spare
+					// capacity. The slice handed over has 512 sentinel bytes of spare
+					// capacity and is overwritten as soon as Write returns.
+					var full []byte
+					if len(p) > 0 {
+						full = make([]byte, len(p), len(p)+512)
+						copy(full, p)
+						spare := full[len(p):cap(full)]
+						for i := range spare {
+							spare[i] = 0x5A
+						}
+						p = full
+					}
 					got, err := stream.Write(p)
+					if full != nil {
+						for i := range full {
+							full[i] = 0xEE
+						}
+						spare := full[len(full):cap(full)]
+						for i := range spare {
+							if spare[i] != 0x5A {
+								mu.Lock()
+								out.WriteErrs = append(out.WriteErrs, "Write modified the spare capacity of the caller's slice")
+								mu.Unlock()
+								break
+							}
+						}
+						// keep checking later: remember the slice
+						mu.Lock()
+						handedOver = append(handedOver, full)
+						mu.Unlock()
+					}
 					if err != nil || got != len(p) {
 						mu.Lock()
 						if err != nil {
@@ -264,6 +296,21 @@ func init() {
 		close(stopSampler)
 		<-samplerDone
 
+		// after everything has been read: nothing may have been stored in the callers' arrays
+		budget := 0
+		for _, full := range handedOver {
+			budget += len(full)
+			if budget > 64<<20 {
+				break
+			}
+			spare := full[len(full):cap(full)]
+			for i := range spare {
+				if spare[i] != 0x5A {
+					out.WriteErrs = append(out.WriteErrs, "the pipe stored data in the spare capacity of a slice passed to Write")
+					break
+				}
+			}
+		}
 		out.TotalRead = len(data)
 		out.Chunks, out.Garbage = c01Parse(data)
 		out.FinalWritten, out.FinalRead = stream.Stats()
